@@ -103,4 +103,6 @@ def main(tier):
     eclayout.check(rep, 'UPD', ['ec_encode_data_update_base', 'gf_vect_mad_base'], 2, writer=False)
     import stridecover
     stridecover.check(rep, 'MAD', {'ec_mad', 'ec_mul'}, 250)
+    import gfhalf
+    gfhalf.check(rep, 'MAD', {'ec_mad'}, 'rcx', ('rdx',), 260)
     return rep.finish()
